@@ -31,7 +31,10 @@ Inductive case :=
 | CPrint (b : Z) (printed : bytes) (reparsed : option Z)
 | CRender (from until : bytes) (efrom euntil : at_expr) (t0 t1 : Z) (status : Z) (tl : option (Z * Z * Z))
       (* GET /render?from=&until=...: status; timeline (startTime s, number of buckets, bucket length s) *)
-| CCli (how : N) (isdur : bool) (s : bytes) (ok : bool) (v : Z).
+| CCli (how : N) (isdur : bool) (s : bytes) (ok : bool) (v : Z)
+| CIngest (from : bytes) (efrom : at_expr) (t0 t1 : Z) (status : Z) (probes : list (Z * Z * bool)).
+      (* POST /ingest?from=<from>&until=<from> with a one-line body into a fresh series; then storage.Get of that series
+         over the probed windows [lo, hi) in Unix seconds: was anything found? *)
       (* cli.PopulateFlagSet: 0 default tag, 1 flag, 2 env var, 3 config file; the resulting field value *)
 
 (* ---------- specification side: documented meanings, written independently of Model/TimeParse ---------- *)
@@ -334,6 +337,31 @@ Definition check_cli (how : N) (isdur : bool) (s : bytes) (ok : bool) (v : Z) : 
   | None => ModelDiffers "model reaches an implementation-defined conversion"
   end.
 
+(* /ingest: the profile must be found in the 10 s slot(s) of from as the property reads the argument, and nowhere else *)
+Definition probe_lo (p : Z * Z * bool) := fst (fst p).
+Definition probe_hi (p : Z * Z * bool) := snd (fst p).
+Definition probe_found (p : Z * Z * bool) := snd p.
+
+Definition check_ingest_with (mk : string -> bool -> verdict) (what : string) (f : option (Z * Z)) (probes : list (Z * Z * bool)) : verdict :=
+  match f with
+  | Some (flo, fhi) =>
+      let wlo := floor10 (flo / 1000000000) in
+      let whi := floor10 (fhi / 1000000000) + 10 in
+      combine_verdicts [
+        mk (what ++ ": /ingest did not store the profile in the slot of from as the property reads the argument")
+           (existsb (fun p => probe_found p && (wlo <=? probe_lo p) && (probe_hi p <=? whi)) probes);
+        mk (what ++ ": /ingest stored the profile outside the slot of from")
+           (forallb (fun p => negb (probe_found p) || ((probe_lo p <? whi) && (wlo <? probe_hi p))) probes) ]
+  | None => Ok
+  end.
+
+Definition check_ingest (from : bytes) (efrom : at_expr) (t0 t1 status : Z) (probes : list (Z * Z * bool)) : verdict :=
+  combine_verdicts [
+    spec (negb (status =? 0)) "/ingest panicked";
+    spec (status =? 200) "/ingest rejected a well-formed upload";
+    check_ingest_with (fun w b => spec b w) "spec" (spec_at efrom t0 t1) probes;
+    check_ingest_with (fun w b => corr b w) "model" (model_at from t0 t1) probes ].
+
 Definition check_case (c : case) : verdict :=
   match c with
   | CAt s t0 t1 res e => check_at s t0 t1 res e
@@ -342,4 +370,5 @@ Definition check_case (c : case) : verdict :=
   | CPrint b printed reparsed => check_print b printed reparsed
   | CRender from until ef eu t0 t1 status tl => check_render from until ef eu t0 t1 status tl
   | CCli how isdur s ok v => check_cli how isdur s ok v
+  | CIngest from efrom t0 t1 status probes => check_ingest from efrom t0 t1 status probes
   end.
